@@ -8,6 +8,10 @@
 pub(crate) mod sync {
     pub(crate) mod atomic {
         pub(crate) use ::bytes_verif_rt::atomic::{AtomicPtr, AtomicUsize, Ordering};
+        // Not used by the crate today; exported so that a change which introduces fences
+        // through this seam is still seen by the simulator.
+        #[allow(unused_imports)]
+        pub(crate) use ::bytes_verif_rt::atomic::{compiler_fence, fence};
 
         pub(crate) trait AtomicMut<T> {
             fn with_mut<F, R>(&mut self, f: F) -> R
